@@ -43,6 +43,10 @@ def main():
             import wbfam
 
             return wbfam.check(prop, a.tier)
+        if prop in ("C06", "C13", "C14", "C20"):
+            import chkfam
+
+            return chkfam.check(prop, a.tier)
         if prop in fixfam.FAMILY:
             return fixfam.check(prop, a.tier)
         common.machinery("no check registered for " + prop)
